@@ -11,22 +11,29 @@ import (
 func init() {
 	register("C17", "Decides structural necessary conditions of 'multi-log submission returns a policy-satisfying SCT set or says it did not': "+
 		"(L1–L6) every access to the state shared by concurrent submissions, weight changes and log-list / root refreshes is made under its mutex (safeSubmissionState, Distributor, Proxy, LogListManager, LogGroupInfo, logListRefresherImpl); "+
+		"(L1–L6 published-object:, L7) publication discipline: a guarded field that holds a reference protects the OBJECT behind it — for every such field either no reference loaded from it outlives its critical section (not used after the unlock, not returned, stored elsewhere, sent, captured by a goroutine or a lasting function value) or no function of the module writes into the published object (stores, map stores / deletes, append / copy into it, calls of functions that write through that argument, writes through the local it was published from after the publishing section); a field with both an escaping reference and an in-place mutation fails, and so does an in-place mutation made under the read lock only; "+
 		"(R1) at most one request per log: SubmitToLog is called only from the per-log goroutine of a group race and only after request() returned true; request() refuses a log that already has a result entry and records the entry before it can return true; result entries are never removed or reset to nil; "+
 		"(R2) distinct logs: the returned set is built only by ranging over the per-log result map and keeps entries that carry an SCT, labelled with their own key; "+
 		"(R3) success ⇔ every group complete: GetSCTs presets every group to 'not complete' before listening for events, records exactly the reported outcome, and returns completenessError over that map on both exits; completenessError is nil only if no entry is false; a race reports Success only from groupComplete(); groupComplete ⇔ needs ≤ 0; needs start at MinInclusions and are decremented only in setResult on the branch that has an SCT (a failed request is booked against no group), and on every path that books the SCT against a group that may still be waiting the log's result entry ends up carrying that SCT; "+
 		"(R4) who is contacted: the policy input of addSomeChain comes only from usableLl.Compatible(...) (pending logs only from pendingQualifiedLl), Compatible = TemporallyCompatible then RootCompatible, and a certificate / precertificate mismatch with the endpoint is an error; "+
 		"(R9) the log list handed to the policy is, on every path, the result of usableLl.Compatible(leaf, nil | last certificate, recorded roots) computed in this call from the chain parsed from this call's input and handed on with it — never a cached, remembered or unfiltered list; GetSCTs is started only from addSomeChain with the groups of a LogsByGroup call made there; "+
 		"(R5) policy group minima: Chrome = Google-operated ≥ 1, non-Google ≥ 1 plus the lifetime-dependent base group; Apple = base group; lifetime thresholds <15 → 2, ≤27 → 3, ≤39 → 4, else 5; setMinInclusions refuses a group that is too small. "+
-		"NOT covered: the outcomes of the races themselves, liveness ('does report success'), termination, fairness of the weighted random order.",
+		"(R6) whom the end of a race may cancel — decided on the contexts themselves: every context derived inside a race from the caller's context (the context.Context parameter of groupRace) is followed through locals, captured variables, parameters and results of module functions to the requests made under it (Submitter calls), the waits on it (Done) and the contexts derived from it, and the cancel function of each derivation to every place it is called, deferred, handed on or stored; (request-not-aborted) every request of the module runs under such a context; a context a request runs under, and every context that one descends from, is derived by WithCancel / WithValue only (no deadline of the race's own) and its cancel function is only handed to the shared submission state, or called / deferred by the activation that itself makes the request synchronously, owns the context alone (made there, or made anew before each start of that activation) and cannot reach its request after the call — never deferred or called by the race or another goroutine, stored, sent, returned or handed to a timer; (turn-not-abandoned) a context that logs only wait on for their turn may in addition be cancelled by a deferred call of the race function itself or under groupComplete() = true; (race-ends) every return of the race is under groupComplete() = true, in the select case / Err() test of the caller's context, or behind the exit of a loop over what the starting loop ranges over in which every round receives an event; "+
+		"NOT covered: the outcomes of the races themselves, when the shared state runs a cancel function handed to it (the sweep of setResult), that every per-log goroutine reports exactly once to the counting loop, cancel functions reached through struct fields, slices, maps or channels (reported as undecided), references to ELEMENTS of a published object that leave the critical section (only the reference held in the field is followed), aliases of a published object kept by the callers of a setter, deferred calls that run after a deferred unlock, liveness ('does report success'), termination, fairness of the weighted random order.",
 		runC17)
 }
 
 func runC17(r *Run) {
 	r.Assume("Go's memory model: accesses ordered by a common mutex do not race; channel operations are safe")
+	r.pubReset()
 	for i, k := range []string{"safeSubmissionState", "Distributor", "Proxy", "LogListManager", "LogGroupInfo", "logListRefresherImpl"} {
 		r.Rule(fmt.Sprintf("C17.L%d", i+1))
 		r.LockCheck(lockTable[k])
 	}
+	// publication discipline of those tables (decided inside LockCheck, one obligation per guarded
+	// reference field): both sides of it must have been seen at work
+	r.Rule("C17.L7")
+	r.pubFloors(11)
 
 	if r.Tier == "thorough" && r.cfg == "" {
 		// discovery: every mutex-bearing struct of the anchored packages is in the lock
@@ -155,39 +162,11 @@ func runC17(r *Run) {
 	r.Rule("C17.R5")
 	c17Policy(r)
 
-	// R6: a request started for one group must be able to outlive that group's race (another
-	// group may still need its SCT): the per-log context is derived directly from the
-	// caller's context, never from a context the race cancels when it returns.
+	// R6: a request started for one group must be able to outlive that group's race (another group
+	// may still need its SCT), and a log waiting for its turn is given up only when the race is over:
+	// decided on the contexts and cancel functions of the race themselves (rules_t8c17.go).
 	r.Rule("C17.R6")
-	if fn := r.Fn("submission.groupRace"); fn != nil {
-		wc := CallsTo(fn, "context.WithCancel")
-		r.Check("groupRace:per-log-context", len(wc) >= 1, r.FnPos(fn), fmt.Sprintf("%d cancellable contexts created", len(wc)))
-		// the caller's context: the parameter of type context.Context, wherever it stands
-		ci := paramOfType(fn, func(t types.Type) bool { return types.TypeString(t, nil) == "context.Context" })
-		if ci < 0 {
-			r.Fail("groupRace:per-log-context.parent", r.FnPos(fn), "undecided: groupRace has no single context.Context parameter")
-		}
-		for _, c := range wc {
-			if ci >= 0 {
-				r.ExpectArg(c, "groupRace:per-log-context.parent", 0, fmt.Sprintf("p%d", ci))
-			}
-		}
-		nDefer := 0
-		eachInstr(fn, func(in ssa.Instruction) {
-			if d, ok := in.(*ssa.Defer); ok && glob("dyn(context.WithCancel(*)#1)", "dyn("+r.D.D(d.Call.Value)+")") {
-				nDefer++
-			}
-		})
-		r.Check("groupRace:no-race-wide-cancel", nDefer == 0, r.FnPos(fn), fmt.Sprintf("%d deferred cancellations of a context created in the race (in-flight requests other groups wait for would be cancelled)", nDefer))
-		// the context handed to SubmitToLog is that per-log context
-		for _, k := range keysOf(r.CallersOf("iface(submission.Submitter).SubmitToLog")) {
-			if f2 := r.P.Func(k); f2 != nil {
-				for _, sc := range CallsTo(f2, "iface(submission.Submitter).SubmitToLog") {
-					r.Check("groupRace:submit.context", glob("*context.WithCancel(*)#0*", r.D.D(CallArgs(sc)[1])) || glob("*new:context.Context#*", r.D.D(CallArgs(sc)[1])), r.Where(sc), "SubmitToLog runs under the per-log context: "+r.D.D(CallArgs(sc)[1]))
-				}
-			}
-		}
-	}
+	c17ContextsOfARace(r)
 
 	r.Rule("C17.R7")
 	c17RootsUnknownOnFailure(r)
